@@ -66,15 +66,15 @@ def vback (s : VSt) (size : BitVec 64) : VSt × Option Nat :=
   let real := (calc_real_size size).toNat
   let b := s.back
   let s1 := refreshP s b real
-  if s1.pfront + s1.cap - b < real then (s1, none) else
-  let off := b % s1.cap
-  let tail := s1.cap - off
+  if s1.pfront + s.cap - b < real then (s1, none) else
+  let off := b % s.cap
+  let tail := s.cap - off
   if tail < real then
     -- make unused tail
     let s2 := { s1 with mem := write64 s1.mem off (make_tail (BitVec.ofNat 64 (tail - 8))) }
     let b' := b + tail
     let s3 := refreshP s2 b' real
-    if s3.pfront + s3.cap - b' < real then (s3, none) else
+    if s3.pfront + s.cap - b' < real then (s3, none) else
     ({ s3 with back := b', mem := write64 s3.mem 0 size }, some 8)
   else
     ({ s1 with mem := write64 s1.mem off size }, some (off + 8))
@@ -95,7 +95,7 @@ def vpop (s : VSt) : VSt × Bool :=
   let f := s.front
   let s1 := refreshC s f
   if s1.cback - f < 8 then (s1, false) else
-  let size := read64 s1.mem (f % s1.cap)
+  let size := read64 s1.mem (f % s.cap)
   let real := (calc_real_size (untail size)).toNat
   ({ s1 with front := f + real }, true)
 
@@ -104,15 +104,15 @@ def vfront (s : VSt) : VSt × Option (Nat × BitVec 64) :=
   let f := s.front
   let s1 := refreshC s f
   if s1.cback - f < 8 then (s1, none) else
-  let size := read64 s1.mem (f % s1.cap)
+  let size := read64 s1.mem (f % s.cap)
   if is_tail size then
     -- unused tail, skip
     let s2 := (vpop s1).1
     let f := s2.front
     let s3 := refreshC s2 f
     if s3.cback - f < 8 then (s3, none) else
-    (s3, some (f % s3.cap + 8, read64 s3.mem (f % s3.cap)))
-  else (s1, some (f % s1.cap + 8, size))
+    (s3, some (f % s.cap + 8, read64 s3.mem (f % s.cap)))
+  else (s1, some (f % s.cap + 8, size))
 
 /-! ### Memory lemmas -/
 
@@ -348,8 +348,8 @@ theorem WF.frame {s : VSt} {recs : List (List Byte)} (h : WF s recs) (mem' : Nat
   have hb := h.bounds
   obtain ⟨a1, a2, a3, a4, a5, a6, r1, r2, e, l1, l2⟩ := h
   refine ⟨a1, a2, a3, a4, a5, a6, r1, r2, e, ?_, ?_⟩
-  · exact l1.frame a1 a2 (fun q h1 h2 => hm q h1 (by omega))
-  · exact l2.frame a1 a2 (fun q h1 h2 => hm q (by omega) h2)
+  · exact l1.frame a1 a2 (fun q (h1 : s.front ≤ q) (h2 : q < s.cback) => hm q h1 (by omega))
+  · exact l2.frame a1 a2 (fun q (h1 : s.cback ≤ q) (h2 : q < s.back) => hm q (by omega) h2)
 
 /-- A block that starts at position `b0 ≥ back_`, does not wrap and ends within one capacity above
     `front_` contains no live cell. -/
@@ -367,5 +367,138 @@ theorem refreshP_spec (s : VSt) (b real : Nat) (h1 : s.pfront ≤ s.front) :
     ((refreshP s b real).pfront + s.cap - b < real → s.front + s.cap - b < real) := by
   unfold refreshP
   split <;> simp <;> omega
+
+/-! ### Producer -/
+
+/-- State after a successful `back( n )`: header written at `back_`, `n` payload bytes reserved at `p`. -/
+structure Reserved (s : VSt) (recs : List (List Byte)) (n p : Nat) : Prop where
+  wf : WF s recs
+  p_eq : p = s.back % s.cap + 8
+  hdr : read64 s.mem (s.back % s.cap) = BitVec.ofNat 64 n
+  fits : s.back % s.cap + realSize n ≤ s.cap
+  room : s.back + realSize n ≤ s.pfront + s.cap
+
+/-- What a record of `n` payload bytes costs at the current `back_`: its real size, plus the unusable
+    tail when it does not fit before the end of the buffer. -/
+def need (s : VSt) (n : Nat) : Nat :=
+  if s.cap - s.back % s.cap < realSize n then (s.cap - s.back % s.cap) + realSize n else realSize n
+
+/-- Publishing an unused-tail marker written at `back_`. -/
+theorem WF.publish_marker {s : VSt} {recs : List (List Byte)} (h : WF s recs) (hoff0 : s.back % s.cap ≠ 0)
+    (hm : read64 s.mem (s.back % s.cap) = make_tail (BitVec.ofNat 64 (s.cap - s.back % s.cap - 8)))
+    (hroom : s.back + (s.cap - s.back % s.cap) ≤ s.pfront + s.cap) :
+    WF { s with back := s.back + (s.cap - s.back % s.cap) } recs := by
+  have hb := h.bounds
+  obtain ⟨a1, a2, a3, a4, a5, a6, r1, r2, e, l1, l2⟩ := h
+  refine ⟨a1, a2, a3, a4, a5, hroom, r1, r2, e, l1, ?_⟩
+  have := l2.append (Layout.marker _ _ [] hb.2.2.2 hoff0 hm (Layout.nil _))
+  simpa using this
+
+/-- Publishing a record written at `back_`. -/
+theorem WF.publish_record {s : VSt} {recs : List (List Byte)} (h : WF s recs) (data : List Byte)
+    (hdr : read64 s.mem (s.back % s.cap) = BitVec.ofNat 64 data.length)
+    (hbytes : readBytes s.mem (s.back % s.cap + 8) data.length = data)
+    (fits : s.back % s.cap + realSize data.length ≤ s.cap)
+    (hroom : s.back + realSize data.length ≤ s.pfront + s.cap) :
+    WF { s with back := s.back + realSize data.length } (recs ++ [data]) := by
+  have hb := h.bounds
+  obtain ⟨a1, a2, a3, a4, a5, a6, r1, r2, e, l1, l2⟩ := h
+  refine ⟨a1, a2, a3, a4, a5, hroom, r1, r2 ++ [data], by rw [e, List.append_assoc], l1, ?_⟩
+  exact l2.append (Layout.record _ _ data [] hb.2.2.2 fits hdr hbytes (Layout.nil _))
+
+theorem vback_spec (s : VSt) (recs : List (List Byte)) (n : Nat) (h : WF s recs) (hn : n < 2 ^ 63)
+    (s' : VSt) (r : Option Nat) (hv : vback s (BitVec.ofNat 64 n) = (s', r)) :
+    s'.front = s.front ∧ s'.cap = s.cap ∧
+    match r with
+    | some p => Reserved s' recs n p ∧ need s n ≤ s.cap - (s.back - s.front)
+    | none => WF s' recs ∧ s'.back = s.back ∧ s.cap - (s.back - s.front) < need s n := by
+  have hreal := real_of n hn
+  have hrs := realSize_facts n
+  have hbd := h.bounds
+  have hpl := h.pfront_le
+  have hbl := h.back_le
+  have hc8 := h.cap8
+  have hcp := h.cap_pos
+  have hoff8 := mod_mod8 (p := s.back) hc8
+  have hofflt := Nat.mod_lt s.back hcp
+  simp only [vback, hreal] at hv
+  obtain ⟨e1, e2, e3, e4, e5, e6, e7, e8⟩ := refreshP_spec s s.back (realSize n) h.pfront_le
+  have hwf1 : WF (refreshP s s.back (realSize n)) recs := h.of_fields _ e1 e2 e3 e4 e5 (by omega) (by omega)
+  generalize refreshP s s.back (realSize n) = s1 at *
+  split at hv
+  · -- first test fails
+    rename_i hA
+    simp only [Prod.mk.injEq] at hv
+    obtain ⟨rfl, rfl⟩ := hv
+    refine ⟨e2, e1, hwf1, e3, ?_⟩
+    have := e8 hA
+    unfold need
+    split <;> omega
+  · rename_i hA
+    have hroom : s.back + realSize n ≤ s1.pfront + s.cap := by omega
+    split at hv
+    · -- the record does not fit before the end of the buffer: unused tail
+      rename_i hB
+      have hoff0 : s.back % s.cap ≠ 0 := by intro h0; omega
+      -- the marker is written into free cells
+      have hwf2 := hwf1.frame (write64 s1.mem (s.back % s.cap)
+          (make_tail (BitVec.ofNat 64 (s.cap - s.back % s.cap - 8))))
+        (hwf1.free_block s.back 8 (by omega) (by omega) (by rw [e1]; omega) _
+          (fun a ha => write64_other _ _ _ _ (by rw [e1] at ha; exact ha)))
+      have hmark : read64 (write64 s1.mem (s.back % s.cap)
+          (make_tail (BitVec.ofNat 64 (s.cap - s.back % s.cap - 8)))) (s.back % s.cap) =
+          make_tail (BitVec.ofNat 64 (s.cap - s.back % s.cap - 8)) := read64_write64 _ _ _
+      generalize write64 s1.mem (s.back % s.cap)
+          (make_tail (BitVec.ofNat 64 (s.cap - s.back % s.cap - 8))) = memM at *
+      obtain ⟨f1, f2, f3, f4, f5, f6, f7, f8⟩ := refreshP_spec { s1 with mem := memM }
+        (s.back + (s.cap - s.back % s.cap)) (realSize n) (by dsimp only; omega)
+      have hwf3 : WF (refreshP { s1 with mem := memM } (s.back + (s.cap - s.back % s.cap)) (realSize n)) recs :=
+        hwf2.of_fields _ f1 f2 f3 f4 f5 (by dsimp only at *; omega) (by dsimp only at *; omega)
+      generalize refreshP { s1 with mem := memM } (s.back + (s.cap - s.back % s.cap)) (realSize n) = s3 at *
+      dsimp only at f1 f2 f3 f4 f5 f6 f7 f8
+      split at hv
+      · -- second test fails: the marker stays unpublished
+        rename_i hC
+        simp only [Prod.mk.injEq] at hv
+        obtain ⟨rfl, rfl⟩ := hv
+        refine ⟨by omega, by omega, hwf3, by omega, ?_⟩
+        have := f8 (by rw [e1]; exact hC)
+        unfold need
+        rw [if_pos hB]
+        omega
+      · rename_i hC
+        simp only [Prod.mk.injEq] at hv
+        obtain ⟨rfl, rfl⟩ := hv
+        have g1 : s3.cap = s.cap := by omega
+        have g3 : s3.back = s.back := by omega
+        have hb0 : (s.back + (s.cap - s.back % s.cap)) % s.cap = 0 := mod_add_tail hcp
+        have hwf4 : WF { s3 with back := s.back + (s.cap - s.back % s.cap) } recs := by
+          have := hwf3.publish_marker (by rw [g1, g3]; exact hoff0) (by rw [g1, g3, f5]; exact hmark)
+            (by rw [g1, g3]; omega)
+          rw [g3, show s3.cap - s.back % s3.cap = s.cap - s.back % s.cap by rw [g1]] at this
+          exact this
+        have hwf5 := hwf4.frame (write64 s3.mem 0 (BitVec.ofNat 64 n))
+          (hwf4.free_block (s.back + (s.cap - s.back % s.cap)) 8 (Nat.le_refl _)
+            (by dsimp only; omega) (by dsimp only; rw [g1, hb0]; omega) _
+            (fun a ha => write64_other _ _ _ _ (by dsimp only at ha; rw [g1, hb0] at ha; exact ha)))
+        refine ⟨by dsimp only; omega, g1, ⟨hwf5, ?_, ?_, ?_, ?_⟩, ?_⟩
+        · dsimp only; rw [g1, hb0]
+        · dsimp only; rw [g1, hb0, read64_write64]
+        · dsimp only; rw [g1, hb0]; omega
+        · dsimp only; omega
+        · unfold need; rw [if_pos hB]; omega
+    · -- the record fits before the end of the buffer
+      rename_i hB
+      simp only [Prod.mk.injEq] at hv
+      obtain ⟨rfl, rfl⟩ := hv
+      have hwf2 := hwf1.frame (write64 s1.mem (s.back % s.cap) (BitVec.ofNat 64 n))
+        (hwf1.free_block s.back 8 (by omega) (by omega) (by rw [e1]; omega) _
+          (fun a ha => write64_other _ _ _ _ (by rw [e1] at ha; exact ha)))
+      refine ⟨e2, e1, ⟨hwf2, ?_, ?_, ?_, ?_⟩, ?_⟩
+      · dsimp only; rw [e1, e3]
+      · dsimp only; rw [e1, e3, read64_write64]
+      · dsimp only; rw [e1, e3]; omega
+      · dsimp only; omega
+      · unfold need; rw [if_neg hB]; omega
 
 end CdsVerif.Algo.Ring.Void
